@@ -2,6 +2,7 @@
   Props/C17.lean — conversions between Value and Rust types are lossless or fail.
 -/
 import RevalModel.Impl.Convert
+import RevalModel.Lemmas.ConvMap
 
 namespace Reval.C17
 open Conv
@@ -129,7 +130,32 @@ theorem vec_roundtrip (k : IntKind) (ns : List Int) (h : ∀ n ∈ ns, k.inRange
     have := ih (fun m hm => h m (by simp [hm]))
     simp [collect, tryInt, fromInt, h n (by simp), this]
 
+/-- map round trip: a map with string keys (a `BTreeMap`: keys distinct, in order) converts into a Value and back
+    unchanged — every key exactly as it was (nothing trims, folds or re-parses a key), every value through its own
+    conversion -/
+theorem map_roundtrip (k : IntKind) (kvs : List (Str × Int)) (hs : KeysSorted kvs)
+    (h : ∀ kv ∈ kvs, k.inRange kv.2 = true) :
+    tryMap (tryInt k) (fromMap (fromInt k) kvs) = .ok kvs := by
+  rw [fromMap_sorted _ _ hs]
+  simp only [tryMap]
+  induction kvs with
+  | nil => simp [collect]
+  | cons kv rest ih =>
+    have hs' : KeysSorted rest := by unfold KeysSorted at *; exact (List.pairwise_cons.mp hs).2
+    have hrest := ih hs' (fun x hx => h x (by simp [hx]))
+    have hkv := h kv (by simp)
+    have h1 : tryInt k (fromInt k kv.2) = .ok kv.2 := by simp [tryInt, fromInt, hkv]
+    simp only [List.map_cons, collect, h1, hrest]
+
+/-- … and what the Value holds in between is exactly those entries -/
+theorem map_image (k : IntKind) (kvs : List (Str × Int)) (hs : KeysSorted kvs) :
+    fromMap (fromInt k) kvs = .map (kvs.map (fun kv => (kv.1, .int kv.2))) := by
+  rw [fromMap_sorted _ _ hs]; rfl
+
 /-! non-vacuity -/
+example : KeysSorted [(" a".toList, (1 : Int)), ("A".toList, 2), ("a".toList, 3), ("a ".toList, 4)] := by
+  unfold KeysSorted; decide
+
 example : tryInt IntKind.u8 (.int 255) = .ok 255 ∧ tryInt IntKind.u8 (.int 256) = .error .numericOverflow ∧
     tryInt IntKind.i8 (.int (-129)) = .error .numericOverflow ∧ tryInt IntKind.u64 (.int (-1)) = .error .numericOverflow := by
   simp [tryInt, IntKind.inRange, IntKind.u8, IntKind.i8, IntKind.u64, IntKind.lo, IntKind.hi]
